@@ -412,3 +412,40 @@ def mutated_mutable_defaults(fn):
                     out.append((a.arg, d, hit))
                 break
     return out
+
+
+def unflushed_return(fn, handle=None):
+    """a writer that returns its still-open file object must flush it after the last write (the caller may read the file while holding
+    the handle).  -> None if fine / not applicable, else the return statement"""
+    rets = [st for st in fn.body if isinstance(st, ast.Return) and isinstance(st.value, ast.Name)]
+    if not rets:
+        return None
+    h = handle or rets[-1].value.id
+    # is h a file opened by this function?
+    opened = [st for st in iter_stmts(fn.body) if isinstance(st, ast.Assign) and norm(st.targets[0]) == h and isinstance(st.value, ast.Call) and dotted(st.value.func) in ('open', 'io.open')]
+    if not opened:
+        return None
+    ridx = fn.body.index(rets[-1])
+
+    def writes(st):
+        for c in ast.walk(st):
+            if isinstance(c, ast.Call):
+                d = dotted(c.func) or ''
+                if d == h + '.write' or d == h + '.writelines':
+                    return True
+                if isinstance(c.func, ast.Attribute) and c.func.attr == 'tofile' and c.args and norm(c.args[0]) == h:
+                    return True
+                if d == 'print' and kw(c, 'file') is not None and norm(kw(c, 'file')) == h:
+                    return True
+        return False
+    last_w = max([i for i, st in enumerate(fn.body[:ridx]) if writes(st)] or [-1])
+    if last_w < 0:
+        return None
+    for st in fn.body[last_w + 1:ridx]:
+        if isinstance(st, ast.Expr) and isinstance(st.value, ast.Call) and dotted(st.value.func) in (h + '.flush', h + '.close'):
+            return None
+    # flush inside the last writing statement (e.g. at the end of the loop body) does not cover a zero-iteration loop, but covers the data written
+    lw = fn.body[last_w]
+    if isinstance(lw, (ast.For, ast.While)) and lw.body and isinstance(lw.body[-1], ast.Expr) and isinstance(lw.body[-1].value, ast.Call) and dotted(lw.body[-1].value.func) == h + '.flush':
+        return None
+    return rets[-1]
